@@ -16,5 +16,6 @@ def run(chk):
     core_rules.ownership_rules(chk, "C02", roles=("CAPITAL", "POSITION"))
     core_rules.refresh_before_trade(chk, "C02")
     backtest_rules.run_loop(chk, "C02")
+    core_rules.security_setup_rules(chk, "C02")  # the value / position histories hold exactly what update writes (float columns)
     from .c17 import strategy_transact
     strategy_transact(chk)
